@@ -404,7 +404,10 @@ impl<'t, 'd> G<'t, 'd> {
 			if ft.contains_union {
 				push_unique(&mut features, "contains-union");
 			}
-			let rename = ft.kind.branch_name();
+			// (a newtype over `i64` carrying the timestamp-millis attribute - directly or through further
+			// newtypes - is still "a long" for the one-branch-per-type rule, but its branch is named
+			// after the logical type)
+			let rename = if ft.logical && ft.kind == AK::Long && ft.text.starts_with("crate::") { "TimestampMillis".to_string() } else { ft.kind.branch_name() };
 			let _ = writeln!(text, "\t#[serde(rename = \"{rename}\")]");
 			let attrs = ft.attrs.join(" ");
 			let _ = writeln!(text, "\tA{v}({attrs} {}),", ft.text);
